@@ -267,6 +267,10 @@ func (f *facts) killField(name string) {
 
 type pathEnv struct {
 	info *types.Info
+	// boolDef: boolean locals assigned exactly once from a condition whose
+	// operands are not assigned afterwards (`ok := len(x) > 1`): testing the
+	// local is testing the condition
+	boolDef map[types.Object]ast.Expr
 }
 
 // pathOf normalises a side-effect-free access path: identifiers, field
@@ -416,6 +420,11 @@ func (pe pathEnv) refineInto(cond ast.Expr, branch bool, f *facts) {
 		if p, ok := pe.pathOf(c); ok {
 			if v, ok := f.okOf[p]; ok && branch {
 				delete(f.maybeNil, v)
+			}
+		}
+		if pe.boolDef != nil {
+			if def, ok := pe.boolDef[pe.info.ObjectOf(c)]; ok {
+				pe.refineInto(def, branch, f)
 			}
 		}
 	case *ast.BinaryExpr:
